@@ -42,9 +42,11 @@ def cases(draw, tier):
         for s in steps:
             x.append(x[-1] + s / 8.0)
     elif kind == 'epoch':       # time stamps: huge offset, small exactly representable steps
-        x = [draw(st.sampled_from([1.7e9, 1.7e12, 1e10]))]
+        x0 = draw(st.sampled_from([1.7e9, 1.7e12, 1e10, 1e15]))
+        unit = 0.125 if x0 == 1e15 else 1.0     # 1e15 + k/8 is exactly representable
+        x = [x0]
         for s in draw(st.lists(st.integers(1, 9), min_size=n - 1, max_size=n - 1)):
-            x.append(x[-1] + s)
+            x.append(x[-1] + s * unit)
     elif kind == 'clustered':   # tight groups separated by big gaps -> long clusters, drift matters
         x = [float(draw(st.integers(0, 10)))]
         for _ in range(n - 1):
@@ -144,7 +146,10 @@ def check_rational(x, t, rule, labels):
             df = float(d)
             # conditioning: the centroid / the member distances carry an absolute rounding error of
             # about eps*max|x| per member, which the division by the range turns into slack on d
-            slack = 4 * EPSF * max(abs(df), abs(t)) + 16 * EPSF * xmax * k / float(length)
+            if rule == 'centroid':   # the running centroid carries ~eps*max|x| per member
+                slack = 4 * EPSF * max(abs(df), abs(t)) + 16 * EPSF * xmax * k / float(length)
+            else:                    # member distances are differences of nearby values: relative error only
+                slack = 64 * EPSF * max(abs(df), abs(t))
             if abs(df - t) <= slack and not (d == tF and exact_data and rule == 'average'):
                 amb += 1
                 new_cluster = bool(step)          # either decision is accepted
